@@ -93,6 +93,17 @@ CHECKS = {
              'against the reference.',
         note='Trusted: the datetime shim (utcnow follows the scheduler clock), TZ=UTC. TorState._addr_map only forwards to '
              'AddrMap.update.'),
+    'C04': dict(
+        engine=E1, design='DESIGN.md section 4 / C04',
+        technique='deviation-bounded stateless exploration of server behaviours x exhaustive configuration product on the real '
+                  'TorControlProtocol authentication path, with an independent HMAC implementation and a reference decision table',
+        text='Bounded exhaustive model checking: 65 ordered advertised-method lists x 8 cookie-file conditions (absent, '
+             'directory, 0/31/33 bytes, valid, valid at a path needing unescaping, no COOKIEFILE) x 6 password providers (none, '
+             'value, empty, Deferred, coroutine, raising) x every server behaviour within 1 (quick) / 2 (thorough) deviations '
+             'from a correct Tor at each of PROTOCOLINFO, AUTHCHALLENGE (7 answers), AUTHENTICATE, and each bootstrap query; '
+             'plus nonce freshness over three successive connections.',
+        note='Trusted: refs/safecookie.py, the scripted reference server in props/c04.py, os.urandom replaced by a known '
+             'counter source, real cookie files under /verif/.work.'),
 }
 
 PENDING = {}
